@@ -346,6 +346,8 @@ val shift_ok : z -> z -> bool
 
 val notu : z -> z -> z
 
+val obind : 'a1 option -> ('a1 -> 'a2 option) -> 'a2 option
+
 val guard : bool -> 'a1 option -> 'a1 option
 
 val c_RTR_CONNECTING : z
